@@ -144,6 +144,68 @@ def run(ctx, R):
              "copy_term can return (bb%s) after %s without passing through unwind_trail: when the copy runs out of memory the forwarding "
              "pointers stay in the source term, so after catch/3 has handled resource_error(memory) the original term is corrupt" % (wit, name), F.where(ct))
     # the phases that mark must themselves leave by `?`/return only (no swallowing): covered by the consumer rule above
+    # ---- each mark is recorded in the copier's trail before anything that can fail: unwind_trail can only put back
+    # what was pushed, so a `?` between `target[L] = mark` and `trail.push((TrailRef::..(L), old))` leaves L marked for good
+    import json
+
+    def canon(n):
+        if isinstance(n, list):
+            return [canon(x) for x in n]
+        if not isinstance(n, dict):
+            return n
+        return {k: canon(v) for k, v in n.items() if k not in ("ln", "mac", "span", "adj_ty")}
+
+    def key(e):
+        return json.dumps(canon(e), sort_keys=True)
+
+    def target_index(e):
+        """L of an expression self.target[L] / self.target.stack()[L]"""
+        if e.get("k") == "Index" and any(x.get("k") == "Field" and x.get("name") == "target" for x in walk(e["base"])):
+            return key(e["idx"]) if "idx" in e else key(e.get("index") or e.get("i"))
+        return None
+    n_pairs = 0
+    found = {}
+    for cp_fn in sorted(p for p, it in F.items.items() if it["file"] == "src/machine/copier.rs" and it["kind"] == "AssocFn" and "CopyTermState" in p):
+        body = F.hir(cp_fn)["body"]
+        for blk in walk(body):
+            if blk.get("k") != "Block":
+                continue
+            ss = list(blk.get("stmts", [])) + ([blk["expr"]] if "expr" in blk else [])
+            pushes, writes = {}, {}
+            for i, st in enumerate(ss):
+                for x in walk(st):
+                    if x.get("k") == "Closure":
+                        continue
+                    if x.get("k") == "MethodCall" and x["name"] == "push" and x["recv"].get("k") == "Field" and x["recv"]["name"] == "trail" and x.get("args") and x["args"][0].get("k") == "Tup":
+                        loc = x["args"][0]["elems"][0]
+                        if loc.get("k") == "Call" and re.search(r"copier::TrailRef::\w+$", loc.get("callee") or "") and loc.get("args"):
+                            pushes.setdefault(key(loc["args"][0]), (i, x["ln"]))
+                    if x.get("k") == "Assign":
+                        L = target_index(x["lhs"])
+                        if L:
+                            writes.setdefault(L, (i, x["ln"]))
+                    if x.get("k") == "Call" and re.search(r"mem::replace$", x.get("callee") or "") and x.get("args"):
+                        a = x["args"][0]
+                        while a.get("k") in ("AddrOf", "Unary", "DropTemps") and ("a" in a or "e" in a):
+                            a = a.get("a") or a.get("e")
+                        L = target_index(a)
+                        if L:
+                            writes.setdefault(L, (i, x["ln"]))
+            for L, (pi, pln) in pushes.items():
+                if L not in writes:
+                    continue
+                wi, wln = writes[L]
+                lo, hi = min(pi, wi), max(pi, wi)
+                between = ss[lo + 1:hi + 1] if lo != hi else []
+                fallible = [y["ln"] for st in between for y in walk(st) if (y.get("k") == "Match" and str(y.get("src", "")).startswith("TryDesugar")) or y.get("k") == "Ret"]
+                found[(cp_fn, wln, pln)] = fallible      # inner blocks are visited later and overwrite the outer verdict
+    for k, ((cp_fn, wln, pln), fallible) in enumerate(sorted(found.items())):
+        n_pairs += 1
+        R.ob("C30:copier:mark-trailed-before-anything-fallible:%s#%d" % (short(cp_fn), k), not fallible,
+             "%s overwrites a cell of the source term (line %s) and records it in the copier trail (line %s) with a `?` or return in between (line %s): if that "
+             "allocation fails, unwind_trail does not know the cell and the source term stays marked after resource_error(memory) was caught"
+             % (short(cp_fn), wln, pln, fallible[:2]), F.where(cp_fn))
+    R.floor("copier mark/trail pairs", n_pairs, 8)
     # ---- the pre-allocated error term sits at the bottom of the heap: no choice point may record a heap mark below
     # the current top, or popping it truncates the heap over that term and the next exhaustion throws garbage
     from . import orframe
